@@ -207,11 +207,6 @@ func (s *scanner) processTail() (lexeme.LexEvent, error) {
 	case lexeme.InlineAnnotationTextBegin:
 		return s.processingFoundLexeme(lexeme.InlineAnnotationTextEnd)
 
-	case lexeme.MultiLineAnnotationBegin:
-		return s.processingFoundLexeme(lexeme.MultiLineAnnotationEnd)
-
-	case lexeme.MultiLineAnnotationTextBegin:
-		return s.processingFoundLexeme(lexeme.MultiLineAnnotationTextEnd)
 	}
 
 	err := errors.NewDocumentError(s.file, errors.ErrUnexpectedEOF)
@@ -713,7 +708,7 @@ func (s *scanner) stateMultiLineAnnotation(c byte) (state, error) {
 }
 
 func (s *scanner) stateMultiLineAnnotationText(c byte) (state, error) {
-	if c == '*' && s.data[s.index] == '/' {
+	if c == '*' && s.index < s.dataSize && s.data[s.index] == '/' {
 		s.found(lexeme.MultiLineAnnotationTextEnd)
 		s.step = s.stateMultiLineAnnotationEnd
 	}
